@@ -222,3 +222,98 @@ func eqMapIS(a, b map[int32]string) bool {
 	}
 	return ok
 }
+
+// ---- many distinct classes in one message (class counts 1..20: definition indexes 2, 15, 16, 17 are crossed) ----
+
+type ZK00 struct{ V int32 }
+type ZK01 struct{ V int32 }
+type ZK02 struct{ V int32 }
+type ZK03 struct{ V int32 }
+type ZK04 struct{ V int32 }
+type ZK05 struct{ V int32 }
+type ZK06 struct{ V int32 }
+type ZK07 struct{ V int32 }
+type ZK08 struct{ V int32 }
+type ZK09 struct{ V int32 }
+type ZK10 struct{ V int32 }
+type ZK11 struct{ V int32 }
+type ZK12 struct{ V int32 }
+type ZK13 struct{ V int32 }
+type ZK14 struct{ V int32 }
+type ZK15 struct{ V int32 }
+type ZK16 struct{ V int32 }
+type ZK17 struct{ V int32 }
+type ZK18 struct{ V int32 }
+
+// zManyClasses: a message with n distinct classes, one instance each, then a second instance of class `again`.
+func zManyClasses(n int, x int32, again int) []interface{} {
+	all := []interface{}{&ZK00{x}, &ZK01{1}, &ZK02{2}, &ZK03{3}, &ZK04{4}, &ZK05{5}, &ZK06{6}, &ZK07{7}, &ZK08{8}, &ZK09{9},
+		&ZK10{10}, &ZK11{11}, &ZK12{12}, &ZK13{13}, &ZK14{14}, &ZK15{15}, &ZK16{16}, &ZK17{17}, &ZK18{18}}
+	out := append([]interface{}{}, all[:n]...)
+	if again >= 0 && again < n {
+		switch v := all[again].(type) {
+		case *ZK00:
+			out = append(out, &ZK00{v.V + 100})
+		case *ZK02:
+			out = append(out, &ZK02{v.V + 100})
+		case *ZK15:
+			out = append(out, &ZK15{v.V + 100})
+		case *ZK16:
+			out = append(out, &ZK16{v.V + 100})
+		case *ZK17:
+			out = append(out, &ZK17{v.V + 100})
+		default:
+			out = append(out, all[again])
+		}
+	}
+	return out
+}
+
+// zClassV reads the V field of a ZKnn instance (nil / wrong type gives -1).
+func zClassV(v interface{}) int32 {
+	switch x := v.(type) {
+	case *ZK00:
+		return x.V
+	case *ZK01:
+		return x.V
+	case *ZK02:
+		return x.V
+	case *ZK03:
+		return x.V
+	case *ZK04:
+		return x.V
+	case *ZK05:
+		return x.V
+	case *ZK06:
+		return x.V
+	case *ZK07:
+		return x.V
+	case *ZK08:
+		return x.V
+	case *ZK09:
+		return x.V
+	case *ZK10:
+		return x.V
+	case *ZK11:
+		return x.V
+	case *ZK12:
+		return x.V
+	case *ZK13:
+		return x.V
+	case *ZK14:
+		return x.V
+	case *ZK15:
+		return x.V
+	case *ZK16:
+		return x.V
+	case *ZK17:
+		return x.V
+	case *ZK18:
+		return x.V
+	}
+	return -1
+}
+
+func zClassName(i int) string {
+	return "ZK" + string(rune('0'+i/10)) + string(rune('0'+i%10))
+}
